@@ -371,6 +371,8 @@ pub struct CaseSpec {
   pub nbeh: usize,
   pub nhotc: usize,
   pub pre: Vec<Stim>,
+  /// calls made on one thread after all the scripted threads have finished (e.g. run the executor to idle)
+  pub post: Vec<Stim>,
   pub threads: Vec<Vec<Stim>>,
 }
 
@@ -540,6 +542,21 @@ pub fn run_once(case: &CaseSpec, prefix: &[usize]) -> RunResult {
       let _ = j.join();
     }
   } // else: the threads stay parked for ever (leaked)
+  if !stuck && !hang && !case.post.is_empty() {
+    // single-threaded epilogue on this (uncontrolled) thread
+    SETUP_LOG.with(|l| l.borrow_mut().clear());
+    for (i, s) in case.post.iter().enumerate() {
+      let w = world.clone();
+      let name = format!("e{}", i + 1);
+      if let Err(e) = catch_unwind(AssertUnwindSafe(|| w.call(s, name))) {
+        let msg = e.downcast_ref::<String>().cloned().or(e.downcast_ref::<&str>().map(|s| s.to_string())).unwrap_or_default();
+        faults.lock().unwrap().push(classify_panic(&msg));
+        break;
+      }
+    }
+    let late = SETUP_LOG.with(|l| l.borrow().clone());
+    lock_state(&ctl).events.extend(late);
+  }
   let events = lock_state(&ctl).events.clone();
   let fault = faults.lock().unwrap().first().cloned().unwrap_or_default();
   let r = rets.lock().unwrap().clone();
